@@ -110,6 +110,7 @@ pub fn entries() -> &'static Vec<Entry> {
             entry::<RegionSut<StrCodec>>(),
             entry::<RegionSut<PairsCodec>>(),
             entry::<RegionSut<ColsUnitVec>>(),
+            entry::<RegionSut<CollapseCodec>>(),
             entry::<RegionSut<UserCodecReg>>(),
             entry::<RegionSut<StrUserCodec>>(),
             entry::<RegionSut<CollapseUserCodec>>(),
